@@ -457,10 +457,17 @@ class C19(Prop):
                 return Mismatch('verifier outcome differs from the model', got, want, 'C19:verify:' + str(corrupt))
             if not corrupt:
                 try:
-                    back = self.spark.createDataFrame([row], st).collect()
+                    frame = self.spark.createDataFrame([row], st)
+                    back = frame.collect()
                 except Exception as e:  # pylint: disable=broad-except
                     return Mismatch('createDataFrame(valid row, schema).collect() raised', exc(e), pv(row), 'C19:create-schema:exc',
                                     relation='spec')
+                # the schema a frame hands out is the type tree it was given, and is reproduced by its own JSON description
+                out_schema = frame.schema
+                reparsed = t._parse_datatype_json_string(out_schema.json())
+                if out_schema != st or st != out_schema or reparsed != out_schema or out_schema != reparsed or dump(out_schema) != dump(st):
+                    return Mismatch('the schema of createDataFrame(rows, schema) is not the given type tree / is not reproduced by parsing '
+                                    'its JSON description', dump(out_schema), dump(st), 'C19:create-schema:schema-roundtrip', relation='spec')
                 if list(back[0]) != list(row) or list(back[0].__fields__) != list(st.names):
                     return Mismatch('createDataFrame with a schema does not return the input row', pv(back[0]), pv(row),
                                     'C19:create-schema:roundtrip', relation='spec')
